@@ -88,6 +88,11 @@ CHECKS = {
    text="Workload: repository corpus, generated sequential programs, process scenarios. Paths: as compiled, tree-shaken, serde_json round trip (plain and shaken), merged after 1-4 other programs (plain or shaken, sometimes a copy of itself). `quiv run -e` vs `quiv compile` + `quiv run` (and the printed value re-evaluated against the in-process value). Generated modules: `%lib` / `%lib.member` vs the module body evaluated in place.",
    design="§3 C10",
    note="The CLI family skips process and I/O programs; outcomes are compared after erasing function indices."),
+ "C11": dict(
+   technique="runtime monitoring: session monitor — every line of a real Repl session (driven over the SimNet scheduler with the heap-invariant monitor on) is compared with the single program of all accepted lines so far; rejected lines are checked to leave the session unchanged",
+   text="Sessions of generated top-level steps (grouped 1-3 per line, renamed apart), alias / destructuring / shadowing / import / closure-capture / previous-result lines and injected parse- and compile-rejected lines, on 1-3 workers under eager, uniform and lazy schedules. Oracle per line: REPL outcome == joined-program outcome; rejected line: get_variables() unchanged and the joined program rejects it too.",
+   design="§3 C11",
+   note="The comparison of a session ends at the first nil line (the single program would short-circuit there)."),
  "C16": dict(
    technique="runtime monitoring: space monitor (executor peak counters + heap slot count) over tail-recursive shape templates executed at N and 50N",
    text="Tail-recursive shapes (self ^ in body / consequence / nested blocks / after bindings / after failed matches, named ^self through a passed function, ^~, per-iteration binaries, tuples, strings, and receive loops with int and binary messages) run at N and 50N on fresh profiled workers; peak frames, locals and operand stack must be identical and heap slots must not grow.",
